@@ -342,8 +342,12 @@ def build(ctx):
     # optimize loop over command sequences
     nm = 2
     alpha = _alphabet(nm)
-    L = 2 if not ctx.thorough else 3
-    seqs = list(sequences(alpha, L, nm))
+    seqs = list(sequences(alpha, 2, nm))
+    if ctx.thorough:
+        # length 3 over a reduced alphabet (the full one gives 4.3k sequences, several hundred of them with
+        # ten-minute queries: three mergeable gates in a row put three angles into one linear path condition)
+        red = [a for a in alpha if a["name"] in ("R0", "R.H0", "R1", "S0", "D0", "F0", "Loss0", "Vac0", "BS01", "MeasX1", "R(q1)0")]
+        seqs += [s for s in sequences(red, 3, nm) if len(s) == 3]
     if not ctx.thorough:
         # plus the length-3 sequences around a measurement (where a command sits on several wires of the grid)
         extra = [s for s in sequences([a for a in alpha if a["name"] in ("MeasX1", "R(q1)0", "D(q1)0", "R(2*q1).H0", "R0", "R1", "F0")], 3, nm)
